@@ -83,10 +83,27 @@ class Deep(State):
 '''
 
 
+def converts_fully(N: Any, term: Any, value: Any) -> bool:
+    """is `value` stored through converting (immutable-making) validators only? True for annotations free of Any-like parts; for a union
+    also when an alternative that is free of them - and listed before every alternative that is not - accepts the value (alternatives
+    are tried in order, so a pass-through alternative listed later is never reached)"""
+    if not contains_any(term):
+        return True
+    t = A.expand(term)
+    if t[0] != "union":
+        return False
+    for alt in t[1]:
+        if contains_any(alt):
+            return False
+        if A.conforms(N, alt, value) is True:
+            return True
+    return False
+
+
 def contains_any(term: Any) -> bool:
     t = A.expand(term)
     k = t[0]
-    if k in ("any", "callable", "protocol"):
+    if k in ("any", "callable", "protocol", "dataprotocol"):
         return True
     if k in ("seq", "set", "frozenset", "vtuple", "optional"):
         return contains_any(t[1])
@@ -218,6 +235,9 @@ class Attack:
         lines = [f"class {name}(State):"]
         for i in range(nattr):
             term = A.gen_term(rng, rng.randint(1, 3))
+            if rng.random() < 0.12 and not contains_any(term) and A.expand(term)[0] in ("seq", "set", "frozenset", "map", "vtuple", "tuple"):
+                # "this container, or anything else": the container alternative is listed first and still converts
+                term = ("union", [term, rng.choice([("any",), ("callable",), ("protocol",)])])
             default: Any = None
             has_default = rng.random() < 0.3
             if has_default:
@@ -277,7 +297,9 @@ class Attack:
             return
         snap0 = self.snapshot(inst)
         terms = {an: t for an, t, _ in attrs}
-        anyfree = {an: not contains_any(t) for an, t, _ in attrs}
+        anyfree = {an: converts_fully(N, t, args[an]) for an, t, _ in attrs}
+        if any(ok and contains_any(t) for (an, t, _), ok in zip(attrs, anyfree.values())):
+            R.count("union_with_any_after_a_converting_alternative")
         history: list[str] = []
         visible = False
         case = {"source": src, "args": repr(args)[:400]}
